@@ -157,12 +157,12 @@ Section SafeMap.
     | OTranslate _ => "TranslateToMapOf"
     end%string.
 
-  (* (lock mode, writes) of each atomic step of an invocation of o, in order *)
-  Definition sections_of (o : op) : list (mode * bool) :=
+  (* (lock mode, may read m, may write m) of each atomic step of an invocation of o, in order *)
+  Definition sections_of (o : op) : list (mode * bool * bool) :=
     match o with
-    | OGetOrAdd _ _ => [(Rd, false); (Wr, true)]
-    | OSet _ _ | ODelete _ | OClear | OClearAndResize _ => [(Wr, true)]
-    | _ => [(Rd, false)]
+    | OGetOrAdd _ _ => [(Rd, true, false); (Wr, true, true)]      (* look up; then re-check and insert *)
+    | OSet _ _ | ODelete _ | OClear | OClearAndResize _ => [(Wr, false, true)]
+    | _ => [(Rd, true, false)]
     end.
 
   (* index of the section a local state is about to execute *)
